@@ -14,7 +14,7 @@ PROPERTY = 'C09'
 RULE = ('A generated formula and a generated decomposition: a set of its sub-terms hoisted into named sub-specifications (dependency '
         'order, nested, every textual re-occurrence replaced by the name; sub-formula reuse is raised so multiple references are common), '
         'some literals hoisted into declare_const; delivered through add_sub_spec or as several assertions in one text, names declared or '
-        'not, each requirement text optionally laid out with line comments after / before it, block comments and line breaks, optionally one sub-specification written out inside the others and defined last, optionally a further requirement that nothing refers to (after pastify with a longer look-ahead), the main text optionally written to a file and loaded with get_spec_from_file(); five monitor set-ups (discrete offline, online, online after pastify; dense offline, online in 1-3 chunks). Oracle '
+        'not, each requirement text optionally laid out with line comments after / before it, block comments and line breaks, optionally one sub-specification written out inside the others and defined last, optionally a further requirement that nothing refers to (after pastify with a longer look-ahead), the main text optionally written to a file and loaded with get_spec_from_file(); five monitor set-ups (discrete offline, online, online after pastify; dense offline, online in 1-3 chunks). One requirement in six is named time / results / value / rob / dataset. Lane bigint_const: every literal hoisted into a constant that declare_const() receives as Python int, Python float or text, integer samples of the order of 1.7e18, discrete time offline and online, compared exactly. Oracle '
         '(differential): outputs of the modular specification == outputs of the inlined specification on the same monitor and data. '
         'Non-trivial = >= 1 sub-specification that contains a stateful/temporal operator or is referenced >= 2 times; distinct = distinct '
         '(modular text, data, kind) digests.')
